@@ -43,7 +43,7 @@ def rule_release(ctx):
     stacks = _stack_names(fn)
     # ExitStack.close() over mock.patch contexts does not fail: it is the release itself
     g = CFG(prog, "__init__", "patch", inline_depth=0,
-            pure_pred=lambda c: isinstance(c.func, ast.Attribute) and c.func.attr == "close"
+            pure_pred=lambda c: isinstance(c.func, ast.Attribute) and c.func.attr in ("close", "callback", "push")
             and isinstance(c.func.value, ast.Name) and c.func.value.id in stacks)
     with_stack_lines = {n.lineno for n in ast.walk(fn) if isinstance(n, ast.With) and any(
         isinstance(it.context_expr, ast.Call) and norm(it.context_expr.func).endswith("ExitStack") or
@@ -85,8 +85,18 @@ def rule_release(ctx):
                           "after a target has been patched there is a path out of patch() that never undoes it "
                           "(snowflake.connector.connect stays a mock, re-entry then asserts)",
                           witness=g.fmt_path(path))
+    def is_close_registration(n):
+        # stack.callback(fs.duck_conn.close): the engine close is handed to the stack, whose release then performs it
+        return (n.kind == "call" and isinstance(n.ast, ast.Call) and isinstance(n.ast.func, ast.Attribute) and n.ast.func.attr in ("callback", "push")
+                and isinstance(n.ast.func.value, ast.Name) and n.ast.func.value.id in stacks and n.ast.args
+                and norm(n.ast.args[0]).endswith("duck_conn.close"))
+
+    regs = [n for n in g.nodes if is_close_registration(n)]
     for a in opens:
-        path = g.path_avoiding(a, is_exit, is_engine_close, first_edge=lambda k: k != "x")
+        path = g.path_avoiding(a, is_exit, lambda n: is_engine_close(n) or is_close_registration(n), first_edge=lambda k: k != "x")
+        if path is None:
+            for r in regs:
+                path = path or g.path_avoiding(r, is_exit, lambda n: is_release(n) or is_engine_close(n), first_edge=lambda k: k != "x")
         ctx.ob("C20.a", f"engine opened at line {a.line}: every exit closes it", path is None, m.loc(a.ast))
         if path is not None:
             ctx.violation("C20.a", "__init__", "patch", a.ast, m.loc(a.ast),
@@ -131,8 +141,16 @@ def rule_targets(ctx):
     # standard targets are in the patched list, before the extras
     loops = [s for s in ast.walk(fn) if isinstance(s, ast.For)]
     oklist = False
+    def assigned(name):
+        for s_ in ast.walk(fn):
+            if isinstance(s_, ast.Assign) and any(isinstance(t, ast.Name) and t.id == name for t in s_.targets):
+                return s_.value
+        return None
+
     for lp in loops:
         it = lp.iter
+        if isinstance(it, ast.Name) and assigned(it.id) is not None:
+            it = assigned(it.id)
         first = it.left if isinstance(it, ast.BinOp) and isinstance(it.op, ast.Add) else it
         vals = None
         if isinstance(first, ast.Name):
